@@ -54,15 +54,24 @@ def main():
             meta['seed_base'] = os.environ['SEED_BASE']
             meta['note'] = 'confirmed against an earlier commit of /repo: a later fix: commit repaired the underlying defect, after which this change no longer breaks the property'
         shutil.copy(demo, os.path.join(wt, '_demo.py'))
-        rc_clean, out = sh([PY, '_demo.py'], wt, {'PYTHONPATH': wt}, timeout=180)
-        meta['ran'].append({'cmd': 'demo.py on the clean tree', 'rc': rc_clean, 'tail': out.strip().splitlines()[-3:]})
+        repeat = int(os.environ.get('CONFIRM_REPEAT', '1'))  # schedule-dependent demonstrations: the clean tree must pass every time, the patched tree must fail at least once
+        rc_clean = 0
+        for _ in range(repeat):
+            rc1, out = sh([PY, '_demo.py'], wt, {'PYTHONPATH': wt}, timeout=180)
+            rc_clean = rc_clean or rc1
+        meta['ran'].append({'cmd': 'demo.py on the clean tree' + (f' ({repeat} runs, all must pass)' if repeat > 1 else ''), 'rc': rc_clean, 'tail': out.strip().splitlines()[-3:]})
         rc, out = sh(['git', 'apply', '--whitespace=nowarn', patch], wt)
         if rc != 0:
             meta['confirmed'] = False
             meta['why'] = 'patch does not apply: ' + out[:300]
         else:
-            rc_patched, out = sh([PY, '_demo.py'], wt, {'PYTHONPATH': wt}, timeout=180)
-            meta['ran'].append({'cmd': 'demo.py with the patch', 'rc': rc_patched, 'tail': out.strip().splitlines()[-3:]})
+            rcs = []
+            for _ in range(repeat):
+                rc_patched, out = sh([PY, '_demo.py'], wt, {'PYTHONPATH': wt}, timeout=180)
+                rcs.append(rc_patched)
+                if rc_patched != 0:
+                    break
+            meta['ran'].append({'cmd': 'demo.py with the patch' + (f' (exit codes of successive runs until the first failure: {rcs})' if repeat > 1 else ''), 'rc': rc_patched, 'tail': out.strip().splitlines()[-3:]})
             os.remove(os.path.join(wt, '_demo.py'))
             rc_suite, tail = suite(wt)
             meta['ran'].append({'cmd': 'pinned test suite with the patch', 'rc': rc_suite, 'tail': tail})
@@ -70,6 +79,8 @@ def main():
         rc, out = sh([PY, os.path.join(VERIF, 'tools', 'eval_patch.py'), patch], VERIF)
         fired = re.findall(r'^FIRED: (.*)$', out, re.M)
         meta['checks_fired'] = fired[0].split() if fired and fired[0] != '(none)' else []
+        und = re.findall(r'^UNDECIDED: (.*)$', out, re.M)
+        meta['checks_undecided'] = und[0].split() if und and und[0] != '(none)' else []
         meta['check_reports'] = [l.strip() for l in out.splitlines() if l.startswith('     ')][:12]
         meta['caught_by_own_property_check'] = prop in meta['checks_fired']
     finally:
